@@ -346,6 +346,8 @@ def check_block(t, configs, scalar_for, acc=None):
                 viol.append(("C17/accessor/%s/structure" % f, {"tensor": [int(x) for x in t[0]], "rotation": rot_name, "scale": scale,
                                                                "style": "accessor"}, {"what": what}, 1))
             for f in accres:
+                if any(f == g for g, _ in complaints):
+                    continue
                 same = _same(accres[f], col[f])
                 if f == "principals":
                     same = same.all(axis=1)
